@@ -81,3 +81,21 @@ Section LinSound.
     exists l, Permutation l h /\ rt_ok l = true /\ seq_ok s l.
   Proof. intros s h. apply lin_sound. Qed.
 End LinSound.
+
+(** The monitor discriminates: a load that misses a save which had already returned is
+    rejected; the same results with overlapping calls are accepted. *)
+Example lin_rejects_stale_read :
+  linearizable fstep fout_eqb finit
+    [(FSave 1 0 [170] 3 [187], FOk, 1, 2); (FLoad 1, FErr (EHeightUnknown 1), 3, 4)] = false.
+Proof. vm_compute. reflexivity. Qed.
+
+Example lin_accepts_overlap :
+  linearizable fstep fout_eqb finit
+    [(FSave 1 0 [170] 3 [187], FOk, 1, 4); (FLoad 1, FErr (EHeightUnknown 1), 2, 3);
+     (FSave 1 1 [171] 4 [188], FErr (EFinOverwrite 1), 5, 8); (FLoad 1, FLoaded 0 [170] 3 [187], 6, 7)] = true.
+Proof. vm_compute. reflexivity. Qed.
+
+Example lin_rejects_two_winners :
+  linearizable fstep fout_eqb finit
+    [(FSave 1 0 [170] 3 [187], FOk, 1, 4); (FSave 1 1 [171] 4 [188], FOk, 2, 3)] = false.
+Proof. vm_compute. reflexivity. Qed.
